@@ -1147,6 +1147,10 @@ static Token *preprocess2(Token *tok) {
 }
 
 void define_macro(char *name, char *buf) {
+  // The body is tokenized like the text of a file, so \u and \U
+  // escapes are decoded here as tokenize_file() does for a file.
+  buf = strdup(buf);
+  convert_universal_chars(buf);
   Token *tok = tokenize(new_file("<built-in>", 1, buf));
   add_macro(name, true, tok);
 }
